@@ -53,8 +53,13 @@ type SpecFn struct {
 	// Group: the generated file the definition goes to: "" = Pure.v, "X" = PureX.v (which imports Pure and the groups
 	// listed for X in the spec's "groups"). A function that cannot be translated is left out of its file (and so are its
 	// callers): only the proofs that mention it stop compiling, the other properties are not affected.
-	Group    string `json:"group,omitempty"`
-	NilGuard bool   `json:"nil_guard,omitempty"`
+	Group string `json:"group,omitempty"`
+	// Fragment: translate ONE statement of the function instead of its body: the statement whose source text starts
+	// with this string. The variables it uses that are declared before it are its parameters (scalars) or roots of
+	// inputs (anything else); falling off its end returns the values of Fallthrough (Coq terms, one per result).
+	Fragment    string   `json:"fragment,omitempty"`
+	Fallthrough []string `json:"fallthrough,omitempty"`
+	NilGuard    bool     `json:"nil_guard,omitempty"`
 	// VarInputs: package-level variables that the translated function takes as inputs instead of the dumped value
 	VarInputs []string `json:"var_inputs,omitempty"`
 }
@@ -283,6 +288,23 @@ func main() {
 	if failed {
 		fmt.Println("go2coq: some functions could not be translated (left out of their files, see above)")
 	}
+}
+
+// stmtSource: the source text of a statement (first 200 bytes), for matching spec fragments
+func stmtSource(p *packages.Package, st ast.Stmt) string {
+	pos, end := fset.Position(st.Pos()), fset.Position(st.End())
+	b, err := os.ReadFile(pos.Filename)
+	if err != nil || pos.Offset >= len(b) {
+		return ""
+	}
+	e := end.Offset
+	if e > len(b) {
+		e = len(b)
+	}
+	if e > pos.Offset+200 {
+		e = pos.Offset + 200
+	}
+	return string(b[pos.Offset:e])
 }
 
 func findFunc(p *packages.Package, name string) *ast.FuncDecl {
@@ -2087,7 +2109,50 @@ func translate(p *packages.Package, f SpecFn, known map[string]*SpecFn, errs map
 		c.outF = append(c.outF, nm)
 		rts = append(rts, coqTy(parts[1]))
 	}
-	body := c.stmts(fd.Body.List)
+	bodyStmts := fd.Body.List
+	if f.Fragment != "" {
+		var frag ast.Stmt
+		ast.Inspect(fd.Body, func(n ast.Node) bool {
+			if st, ok := n.(ast.Stmt); ok && frag == nil {
+				if _, isBlock := st.(*ast.BlockStmt); !isBlock && strings.HasPrefix(stmtSource(p, st), f.Fragment) {
+					frag = st
+					return false
+				}
+			}
+			return frag == nil
+		})
+		if frag == nil {
+			panic(fail{"fragment not found: " + f.Fragment})
+		}
+		// free variables of the fragment
+		seen := map[string]bool{}
+		ast.Inspect(frag, func(n ast.Node) bool {
+			id, ok := n.(*ast.Ident)
+			if !ok {
+				return true
+			}
+			v, ok := c.info.Uses[id].(*types.Var)
+			if !ok || v.IsField() || v.Pkg() == nil || v.Parent() == v.Pkg().Scope() || seen[id.Name] {
+				return true
+			}
+			if v.Pos() >= frag.Pos() && v.Pos() <= frag.End() {
+				return true
+			}
+			seen[id.Name] = true
+			if !c.params[id.Name] {
+				addParam(v)
+			}
+			return true
+		})
+		bodyStmts = []ast.Stmt{frag}
+	}
+	body := c.stmts(bodyStmts)
+	if f.Fragment != "" && strings.Contains(body, "FALLTHROUGH") {
+		if len(f.Fallthrough) != sig.Results().Len() {
+			panic(fail{"fragment: fallthrough needs one Coq term per result"})
+		}
+		body = strings.ReplaceAll(body, "FALLTHROUGH", c.ret(f.Fallthrough))
+	}
 	if len(f.Opaque) > 0 {
 		if c.opaqueK == nil {
 			panic(fail{"no return of an opaque callee found"})
